@@ -149,10 +149,18 @@ fn broken(rng: &mut Rng) -> TextItem {
 
 /// One generated input text, a pure function of the PRNG state.
 pub fn ambient_text(rng: &mut Rng) -> TextItem {
-    match rng.weighted(&[20, 12, 16, 34, 10, 8, 5]) {
+    match rng.weighted(&[20, 12, 16, 34, 10, 8, 5, 3]) {
+        7 => {
+            // many independent conflicts in a machine of hundreds of states (which conflict is
+            // reported must not depend on anything but the text)
+            let cfg = gen::fam_conflict_n(rng, 12, 40);
+            let g = gen::decorate(&cfg, rng, DecoOpts { collide_pct: 3, unreachable: false, payload: "()", shuffle: true });
+            let mut lay = rng.clone();
+            TextItem { text: render(&g, &mut lay), category: "conflict-big", planted: 0 }
+        }
         6 => {
             // identical right-hand sides told apart by context: LALR(1), LR(1)-only or neither
-            let cfg = gen::fam_lr1ish(rng);
+            let cfg = if rng.chance(1, 2) { gen::fam_lr1ish(rng) } else { gen::fam_lr1ish_deep(rng) };
             let g = gen::decorate(&cfg, rng, DecoOpts { collide_pct: 5, unreachable: false, payload: "()", shuffle: true });
             let mut lay = rng.clone();
             TextItem { text: render(&g, &mut lay), category: "lr1ish", planted: 0 }
